@@ -36,7 +36,7 @@ pub struct NetRec {
     /// index of this datagram among the datagrams of its direction
     pub idx: u32,
     pub fate: Fate,
-    /// delivery times of every copy that reaches the destination queue
+    /// arrival instants of every copy that reached the destination queue (recorded at arrival)
     pub deliveries_us: Vec<u64>,
     /// hash of the bytes as sent
     pub hash: u64,
@@ -122,10 +122,11 @@ impl ScriptedNet {
     }
 }
 
-pub fn deliver_at(buffers: &Buffers, mut packet: Packet, at_us: u64) {
+pub fn deliver_at(buffers: &Buffers, mut packet: Packet, at_us: u64, shared: &NetShared, rec_idx: usize) {
     // the receiver sees its own address as local
     packet.switch();
     let buffers = buffers.clone();
+    let shared = shared.clone();
     let now = now_us();
     io::spawn(async move {
         if at_us > now {
@@ -133,6 +134,12 @@ pub fn deliver_at(buffers: &Buffers, mut packet: Packet, at_us: u64) {
         }
         let dst: SocketAddress = *packet.path.local_address;
         buffers.rx(dst, |queue| queue.enqueue(packet));
+        // the actual arrival instant, as the receiving endpoint's clock sees it
+        if let Ok(mut st) = shared.lock() {
+            if let Some(rec) = st.log.get_mut(rec_idx) {
+                rec.deliveries_us.push(now_us());
+            }
+        }
     });
 }
 
@@ -194,32 +201,27 @@ impl Network for ScriptedNet {
                 intact: true,
                 injected: false,
             };
+            // (packet, scheduled arrival) for every copy that will be delivered
+            let mut copies: Vec<(Packet, u64)> = vec![];
             if len > self.cfg.max_udp_payload as usize {
                 rec.fate = Fate::MtuDropped;
             } else if self.blackholed(dir, t_us) {
                 rec.fate = Fate::Blackholed;
             } else {
                 match self.fault_for(dir, idx) {
-                    Fault::Pass => {
-                        rec.deliveries_us.push(t_us + base);
-                        deliver_at(buffers, packet, t_us + base);
-                    }
+                    Fault::Pass => copies.push((packet, t_us + base)),
                     Fault::Drop => rec.fate = Fate::Dropped,
                     Fault::Dup(n) => {
                         let n = (n % 4) + 1;
                         rec.fate = Fate::Duplicated(n);
                         for k in 0..=n as u64 {
                             // copies arrive slightly apart
-                            let at = t_us + base + k * (base / 8 + 1);
-                            rec.deliveries_us.push(at);
-                            deliver_at(buffers, packet.clone(), at);
+                            copies.push((packet.clone(), t_us + base + k * (base / 8 + 1)));
                         }
                     }
                     Fault::Delay(units) => {
                         rec.fate = Fate::Delayed;
-                        let at = t_us + base + (units as u64) * (base / 4 + 1);
-                        rec.deliveries_us.push(at);
-                        deliver_at(buffers, packet, at);
+                        copies.push((packet, t_us + base + (units as u64) * (base / 4 + 1)));
                     }
                     Fault::Corrupt { pos, mask } => {
                         let mut packet = packet;
@@ -229,8 +231,7 @@ impl Network for ScriptedNet {
                             rec.fate = Fate::Corrupted;
                             rec.intact = false;
                         }
-                        rec.deliveries_us.push(t_us + base);
-                        deliver_at(buffers, packet, t_us + base);
+                        copies.push((packet, t_us + base));
                     }
                     Fault::Truncate(n) => {
                         let mut packet = packet;
@@ -240,10 +241,13 @@ impl Network for ScriptedNet {
                             rec.fate = Fate::Truncated;
                             rec.intact = false;
                         }
-                        rec.deliveries_us.push(t_us + base);
-                        deliver_at(buffers, packet, t_us + base);
+                        copies.push((packet, t_us + base));
                     }
                 }
+            }
+            let rec_idx = st.log.len();
+            for (p, at) in copies {
+                deliver_at(buffers, p, at, &self.shared, rec_idx);
             }
             st.log.push(rec);
             count += 1;
